@@ -41,6 +41,8 @@ plan('C19',
          Job('c19_date', 'millis', 'plain', quick=600, thorough=20000, shards=(4, 16)),
          Job('c19_date', 'offsets', 'asan', quick=2879, thorough=2879, shards=(8, 8)),
          Job('c19_date', 'offsets', 'plain', quick=2879, thorough=2879, shards=(4, 4)),
+         Job('c19_date', 'parse_mt', 'plain', quick=200, thorough=2000, shards=(4, 8), params=dict(rounds=300)),
+         Job('c19_date', 'parse_mt', 'tsan', quick=24, thorough=200, shards=(4, 8), params=dict(rounds=100), batch=4, leakcheck=False),
          Job('c19_date', 'junk', 'asan', quick=3000, thorough=120000, shards=(8, 16)),
      ],
      post=post_c19,
